@@ -213,7 +213,11 @@ func (s *snapshotSink) done(err error) (snapshotMeta, error) {
 	}
 	temp = nil
 	s.snaps.mu.Lock()
-	s.snaps.index, s.snaps.term = s.meta.index, s.meta.term
+	if s.meta.index > s.snaps.index {
+		// a snapshot taken locally can finish after a newer one was
+		// installed by the leader: the latest snapshot never moves back
+		s.snaps.index, s.snaps.term = s.meta.index, s.meta.term
+	}
 	s.snaps.mu.Unlock()
 	_ = s.snaps.applyRetain() // todo: trace error
 	return s.meta, nil
